@@ -41,6 +41,7 @@ from pydiverse.transform._internal.pipe.pipeable import (
 from pydiverse.transform._internal.pipe.table import Table
 from pydiverse.transform._internal.tree import types
 from pydiverse.transform._internal.tree.col_expr import (
+    CaseExpr,
     Col,
     ColExpr,
     ColFn,
@@ -1639,6 +1640,8 @@ def preprocess_arg(arg: ColExpr, table: Table, *, agg_is_window: bool = True) ->
     arg = wrap_literals(arg)
     assert isinstance(arg, ColExpr | Order)
 
+    retyped = []
+
     def _preprocess_expr(expr: ColExpr, eval_aligned: bool = False):
         if isinstance(expr, Col) and expr._uuid not in table._cache.cols and not eval_aligned:
             raise ColumnNotFoundError(f"column `{expr.ast_repr()}` does not exist in table `{table._ast.name}`")
@@ -1652,6 +1655,14 @@ def preprocess_arg(arg: ColExpr, table: Table, *, agg_is_window: bool = True) ->
 
         if isinstance(expr, ColName):
             return table[expr.name]
+
+        if isinstance(expr, Col) and not eval_aligned:
+            # the column as the table knows it now: its type may have changed since the
+            # reference was taken (common type after a union, no `const` after a subquery)
+            cur = table._cache.cols[expr._uuid]
+            if cur.dtype() != expr.dtype():
+                retyped.append(expr)
+                return copy.copy(cur)
 
         new = copy.copy(expr)
         if (
@@ -1671,6 +1682,10 @@ def preprocess_arg(arg: ColExpr, table: Table, *, agg_is_window: bool = True) ->
                 eval_aligned=eval_aligned | isinstance(expr, EvalAligned),
             )
         )
+
+        if retyped and isinstance(new, ColFn | CaseExpr):
+            # the type was computed from the types the references had before
+            new._dtype = None
 
         # add casts for boolean add / sum
         # If we have more operations like these, which we want to map to other
